@@ -173,38 +173,14 @@ def vouch_race_scenario():
     """Directed schedule: the environment part of TLC's counterexample of MC_Vouch_race.cfg.  Epoch 2 (slots 4, 5):
     version 0 has v1 in slot 4 and v2 in slot 5, the reorg swaps them.  The goroutine of "Attestations for slot 4" is
     held where its select has taken the timer branch (the scheduler's own verif hook) while a reorg head event
-    makes the controller cancel and re-schedule the epoch's jobs."""
+    makes the controller cancel and re-schedule the epoch's jobs.  The withdrawn job must not run (repair 7cb52d1);
+    if it does the trace breaks CancelledNeverRuns / SlotOnce / PendingExact (also judged, as property C03, by ./check C03)."""
     duties = [{"e": e, "w": w, "v": v, "slot": 2 * e + (v - 1 + w) % 2} for e in range(8) for w in range(3) for v in (1, 2)]
     steps = [{"ev": "Reset", "p": 2, "start": 3, "last": 8, "ft": False, "vals": [1, 2], "duties": duties},
              {"ev": "Advance", "slow": []}, {"ev": "Head"}, {"ev": "Hold", "e": 4}, {"ev": "Phase"},
              {"ev": "Reorg", "e": 2}, {"ev": "Head"}, {"ev": "Release"},
              {"ev": "Advance", "slow": []}, {"ev": "Phase"}, {"ev": "Advance", "slow": []}, {"ev": "Phase"}]
     return {"sc": RACE_SC, "kind": "vouch", "race": True, "slotms": VOUCH_SLOT_MS, "tail": 3, "steps": steps}
-
-
-def vouch_race_probe(v):
-    """The trace of the directed schedule must be a behaviour of the composition with the scheduler as built (it is
-    part of the batch above: at-most-once signing holds in it).  Judged strictly (a withdrawn job never runs, a slot is
-    attested once, the pending note is exact) it is rejected as long as the open finding
-    C03-cancel-on-fired-timer-runs-withdrawn-job stands: said here, never a verdict of C01."""
-    tp = os.path.join(vf.outdir(PID), "trace-vouch-batch.ndjson")
-    if not os.path.exists(tp):
-        return
-    rows = [r for r in vf.read_ndjson(tp) if r.get("sc") == RACE_SC]
-    notes = {r.get("what"): r.get("ok") for r in rows if r["ev"] == "Note"}
-    if not rows or not notes.get("hold") or not notes.get("release"):
-        vf.log("note: directed cancel-on-fired-timer schedule could not be set up in this run (%s)" % notes)
-        return
-    rp = os.path.join(vf.outdir(PID), "vouch-race.ndjson")
-    vf.write_ndjson(rp, rows)
-    res = vf.validate_trace(PID, "Trace_Vouch", "Trace_Vouch_strict.cfg", rp, name="trace-vouch-race", dfs=True, timeout=600)
-    if res["accepted"]:
-        msg = "directed cancel-on-fired-timer schedule: the withdrawn job did not run (finding C03-cancel-on-fired-timer-runs-withdrawn-job not re-observed)"
-    else:
-        msg = ("directed cancel-on-fired-timer schedule: open finding C03-cancel-on-fired-timer-runs-withdrawn-job re-observed on the real "
-               "controller + scheduler + attester (%s); at-most-once signing holds in that trace" % res["why"])
-    vf.log("note: " + msg)
-    v.coverage.setdefault("system_level_notes", []).append(msg)
 
 
 def _expect_violation(cfg, inv, timeout=900):
@@ -270,7 +246,6 @@ def run_vouch(v, tier):
     ]
     sc = vouch_scenarios(tier)
     vouch_conformance(v, sc)
-    vouch_race_probe(v)
 
 
 def vouch_model_start(tier):
